@@ -35,7 +35,9 @@ LIT = {"int": "1", "bigint": "123456789012345678901234567890", "float": "1.5", "
        "str": "'s'", "bytes": "b's'", "None": "None", "True": "True", "Ellipsis": "..."}
 ALL_CMP = sorted(CMP)
 FEW_CMP = ["<", "in", "is not"]
-FINDINGS = ["equal-precedence-right-operand", "singleton-tuple-comma", "subscript-tuple-index", "slice-bound-tuple"]
+ASTOR_CLASS = "astor-fallback-unfaithful"
+FINDINGS = ["equal-precedence-right-operand", "singleton-tuple-comma", "subscript-tuple-index", "slice-bound-tuple",
+            ASTOR_CLASS]
 
 
 def kids_of(t: Dict[str, Any]) -> List[Dict[str, Any]]:
@@ -173,24 +175,47 @@ def astor_text(e: ast.AST) -> str:
     return astor.to_source(e).strip()
 
 
-def model_text(rec: Dict[str, Any]) -> str:
-    """ImplText of the spec with the environment (astor) placeholders filled in."""
+def model_text(rec: Dict[str, Any]) -> Tuple[str, bool]:
+    """ImplText of the spec with the environment (astor) placeholders filled in, and the inline-mode cut:
+    linebreakok = False (colorize_inline_pyval), so at the first newline (astor wraps long source lines) _output
+    raises _Linebreak; every enclosing _OperatorDelimiter.__exit__ still appends its ')' while the exception
+    propagates; colorize() then drops the last 3 characters and appends the ellipsis (_pyval_repr.py:316-325)."""
+    out: List[str] = []
+    open_ops = 0
+    for tok in rec["impl"]:
+        if tok == "<(":
+            open_ops += 1
+            out.append("(")
+        elif tok == ")>":
+            open_ops -= 1
+            out.append(")")
+        elif tok.startswith("$"):
+            txt = astor_text(mk_ast(subtree(rec["t"], tok[1:])))
+            if "\n" in txt:
+                out.append(txt.split("\n", 1)[0])
+                out.append(")" * open_ops)
+                return "".join(out)[:-3] + "...", False
+            out.append(txt)
+        else:
+            out.append(tok)
+    return "".join(out), True
+
+
+def astor_unfaithful(rec: Dict[str, Any]) -> List[str]:
+    """Environment assumption of Expr.tla (EnvSelfDelimited / 'astor renders its sub-tree faithfully'), checked per
+    case: the sub-trees handed to astor whose astor text, taken alone, does not parse back to the sub-tree."""
     out = []
     for tok in rec["impl"]:
         if tok.startswith("$"):
-            out.append(astor_text(mk_ast(subtree(rec["t"], tok[1:]))))
-        else:
-            out.append(tok)
-    return "".join(out)
-
-
-def inline_cut(text: str) -> Tuple[str, bool]:
-    """ExprLayout.tla!InlineCut: linebreakok = False (colorize_inline_pyval): at the first newline (astor wraps long
-    source lines) _output raises _Linebreak; colorize() drops the last 3 characters and appends the ellipsis."""
-    if "\n" not in text:
-        return text, True
-    head = text.split("\n", 1)[0]
-    return head[:-3] + "...", False
+            st = subtree(rec["t"], tok[1:])
+            txt = astor_text(mk_ast(st))
+            if st["k"] == "Slice":
+                ok = same_expr("x[" + txt + "]", ast.Subscript(ast.Name("x", ast.Load()), mk_ast(st), ast.Load()))[0]
+            else:
+                ok = same_expr(txt, mk_ast(st))[0]
+            if not ok and "\n" not in txt:
+                out.append(tok[1:])
+    return out
 
 
 def check_astor_table(ctx: Ctx) -> None:
@@ -234,12 +259,12 @@ def judge_tree(ctx: Ctx, rec: Dict[str, Any], origin: str, stats: Dict[str, int]
     # (b) the real code
     shown, complete, warns = shown_inline(mk_ast(tree))
     ctx.traces += 1
-    model, model_complete = inline_cut(model_text(rec))
+    model, model_complete = model_text(rec)
     drift = shown != model or complete != model_complete
     if drift:
         stats["drift"] += 1
         ctx.drift_note({"source": ref_src, "model": model, "real": shown})
-    classes = sorted({b["cls"] for b in rec["bad"]})
+    classes = sorted({b["cls"] for b in rec["bad"]} | ({ASTOR_CLASS} if astor_unfaithful(rec) else set()))
     if classes:
         stats["design_bad"] += 1
     ok, why = same_expr(shown, want) if complete else (shown.endswith("..."), "cut without the ellipsis marker")
@@ -256,10 +281,13 @@ def judge_tree(ctx: Ctx, rec: Dict[str, Any], origin: str, stats: Dict[str, int]
                        "expected": "ast.parse(shown) == ast.parse(input) modulo documented spellings",
                        "design_classes": classes, "model_text": model, "drift": drift,
                        "key": f"rt:{origin}:{classes}:{ref_src if not classes or drift else ''}"})
-    elif classes and not drift:
+    elif classes and not drift and complete:
         # the model predicts a wrong text, the real text equals the model's, and yet it parses back fine:
         # the design-level check demands more than the property (e.g. a or (b or c))
         stats["design_bad_but_real_ok"] += 1
+        ctx.extra.setdefault("design_bad_but_real_ok_examples", [])
+        if len(ctx.extra["design_bad_but_real_ok_examples"]) < 40:
+            ctx.extra["design_bad_but_real_ok_examples"].append(f"{classes} {ref_src}  ->  {shown}")
     if stats["seen"] % 1500 == 0:
         ctx.sample({"source": ref_src, "shown": shown, "design_classes": classes})
     stats["seen"] += 1
